@@ -5,6 +5,7 @@ import (
 	"go/constant"
 	"go/token"
 	"go/types"
+	"sort"
 	"strings"
 
 	"golang.org/x/tools/go/ssa"
@@ -224,8 +225,42 @@ func ruleKeyEncoders(r *Run) {
 			}
 			return false
 		}
+		// predicate form: both range over a.entries and gate each entry by the same first-party
+		// predicate(s) on the entry's name
+		gates := func(f *ssa.Function) (string, bool) {
+			var names []string
+			for _, l := range rangeIndexLoops(f) {
+				if fl, base, ok := loadOfField(l.X); !ok || fl != "entries" || base != ssa.Value(f.Params[0]) {
+					continue
+				}
+				for b := range l.Blocks {
+					for _, in := range b.Instrs {
+						c, ok := in.(*ssa.Call)
+						if !ok {
+							continue
+						}
+						callee := staticCallee(c)
+						if callee == nil || callee.Signature.Recv() == nil || len(c.Call.Args) != 2 || c.Call.Args[0] != ssa.Value(f.Params[0]) {
+							continue
+						}
+						if bt, ok := c.Type().Underlying().(*types.Basic); !ok || bt.Kind() != types.Bool {
+							continue
+						}
+						if fl, _, ok := loadOfField(c.Call.Args[1]); ok && fl == "name" {
+							names = append(names, callee.Name())
+						}
+					}
+				}
+			}
+			sort.Strings(names)
+			return strings.Join(names, ","), len(names) > 0
+		}
+		gk, okk := gates(key)
+		ga, oka := gates(as)
 		if uses(key) && uses(as) {
 			o.OK("both call a.forEach").At(r.pos(key.Pos()))
+		} else if okk && oka && gk == ga {
+			o.OK("both range over a.entries gated by %s(e.name)", gk).At(r.pos(key.Pos()))
 		} else {
 			o.Fail(r.pos(key.Pos()), "Key uses forEach=%v, AsLokiAPI uses forEach=%v", uses(key), uses(as))
 		}
@@ -251,9 +286,23 @@ func ruleForEachVisibility(r *Run) {
 	p := r.P
 	fn := p.Method(enginePkg, "aggregatedLabels", "forEach")
 	o := r.Ob("FE-BOOL", "logqlengine.(*aggregatedLabels).forEach", "a label is visible iff it is not in the without-set and (there is no by-set or it is in the by-set); every entry is visited")
+	// without an enumerating helper the key encoder itself is the enumeration: a label is visible
+	// iff it is fed to the hash
+	viaKey := false
+	if fn == nil {
+		fn = p.Method(enginePkg, "aggregatedLabels", "Key")
+		viaKey = true
+	}
 	if fn == nil {
 		o.Fail("-", "method not found")
 		return
+	}
+	isEvent := func(c ssa.CallInstruction) bool {
+		if !viaKey {
+			return len(fn.Params) > 1 && c.Common().Value == ssa.Value(fn.Params[1])
+		}
+		callee := staticCallee(c)
+		return callee != nil && strings.Contains(pkgPathOf(callee), "xxhash") && (callee.Name() == "WriteString" || callee.Name() == "Write")
 	}
 	var loop *rangeLoop
 	for _, l := range rangeIndexLoops(fn) {
@@ -326,7 +375,7 @@ func ruleForEachVisibility(r *Run) {
 				called := false
 				for _, e := range w.RunFrom(loop.Body, loop.Header) {
 					for _, c := range e.State.calls {
-						if c.Call.Common().Value == ssa.Value(fn.Params[1]) && c.Call.Block() != nil {
+						if isEvent(c.Call) && c.Call.Block() != nil && (!viaKey || loop.Blocks[c.Call.Block()]) {
 							// only count calls made before returning to the header the first time
 							called = true
 						}
@@ -347,7 +396,7 @@ func ruleForEachVisibility(r *Run) {
 		var cb *ssa.Call
 		for b := range loop.Blocks {
 			for _, in := range b.Instrs {
-				if c, ok := in.(*ssa.Call); ok && c.Call.Value == ssa.Value(fn.Params[1]) {
+				if c, ok := in.(*ssa.Call); ok && !viaKey && c.Call.Value == ssa.Value(fn.Params[1]) {
 					cb = c
 				}
 			}
